@@ -22,7 +22,7 @@ use vh::exercise::{exercise, Observer, OPS};
 use vh::seeds::{self, Layout};
 use vh::*;
 
-const WALL_MS: u64 = 60_000;
+const WALL_MS: u64 = 10_000;
 const HARD_CAP: usize = 512 << 20;
 
 fn budget(len: usize) -> usize {
@@ -544,13 +544,13 @@ fn main() {
         let mut def = CheckDef::new(
             "C01",
             "fault_enumeration",
-            "every case = one byte string built from a structured seed by an enumerated corruption (one deviation: every even offset x width {2,4,8} x value menu {0,1,len-1,len,len+1,2^31,2^32-1,16,0xffff, own offset, own offset-4/-8/-16, start of enclosing stream, directory rva, every directory rva and rva+size}, no-ops removed; every truncation; fan-in shapes; tiny stream contents; thorough: two deviations on structural words), run through the full consumer driver (open, all 24 stream types, all queries, all prints) under per-operation panic guards, a 60 s wall budget (backstop), a 512 MiB hard cap and the allocation budget 64 KiB + 64*len + len^2/4 on peak live bytes above the case baseline. distinct_nontrivial = distinct (per-stream outcome vector, thread/module/context shape) among cases where Minidump::read returned Ok.",
+            "every case = one byte string built from a structured seed by an enumerated corruption (one deviation: every even offset x width {2,4,8} x value menu {0,1,len-1,len,len+1,2^31,2^32-1,16,0xffff, own offset, own offset-4/-8/-16, start of enclosing stream, directory rva, every directory rva and rva+size}, no-ops removed; every truncation; fan-in shapes; tiny stream contents; thorough: two deviations on structural words), run through the full consumer driver (open, all 24 stream types, all queries, all prints) under per-operation panic guards, a 10 s wall budget, a 512 MiB hard cap and the allocation budget 64 KiB + 64*len + len^2/4 on peak live bytes above the case baseline. distinct_nontrivial = distinct (per-stream outcome vector, thread/module/context shape) among cases where Minidump::read returned Ok.",
         );
         def.assumptions = vec![
             "inputs are corruptions of ~70 structured seeds and all very short strings; byte strings needing 3+ coordinated corruptions far from any seed are not reached".into(),
             "allocation is observed through the global allocator of the worker process (peak of live bytes above the baseline taken after the input buffer is built); the input buffer itself is not charged".into(),
             "printing goes to io::sink(): formatting code runs, but write errors are not injected".into(),
-            "hang = one case (all operations on one input) exceeding 60 s wall in a worker (deliberately generous: 10 s budgets produced spurious hang verdicts on the 119 KB corpus file while the shared machine ran at load 60; a legitimate case takes < 50 ms); the property's 'always terminates' is checked against this budget only".into(),
+            "hang = one case (all operations on one input) exceeding 10 s wall in a worker, confirmed by the core re-running the case alone in a fresh worker (a legitimate case takes < 50 ms); the property's 'always terminates' is checked against this budget only".into(),
             "stack-overflow style process death would be reported as crash@<operation>; third-party crates (scroll, range-map, encoding_rs, procfs-core, time) are exercised only through the reader's call sites".into(),
         ];
         def.extra.insert("wall_budget_ms".into(), json!(WALL_MS));
